@@ -2,6 +2,7 @@ package main
 
 // C17: method dispatch through a real server. Case lines:
 //   A <builtin> <tree> <hexname>   -> H<id> | B | N | E<code>   (+"!ctx..." if a context check failed)
+//   Q <builtin> <tree> <hexname,hexname,...> -> the outcomes of one Batch of calls with these names, in order
 //   M <tree>                        -> Names() of the assigner
 //   I <tree>                        -> methods listed by rpc.serverInfo
 
@@ -94,9 +95,16 @@ func (o opaque) Assign(ctx context.Context, method string) jrpc2.Handler {
 }
 
 type ctxLog struct {
-	mu   sync.Mutex
-	bad  []string
-	seen int
+	mu       sync.Mutex
+	bad      []string
+	seen     int
+	assigned map[*jrpc2.Request]bool // requests the top-level assigner was consulted for
+}
+
+func (c *ctxLog) wasAssigned(req *jrpc2.Request) bool {
+	c.mu.Lock()
+	defer c.mu.Unlock()
+	return c.assigned[req]
 }
 
 func (c *ctxLog) fail(what string) {
@@ -131,6 +139,10 @@ func (c checking) Assign(ctx context.Context, method string) jrpc2.Handler {
 	}
 	c.log.mu.Lock()
 	c.log.seen++
+	if c.log.assigned == nil {
+		c.log.assigned = map[*jrpc2.Request]bool{}
+	}
+	c.log.assigned[req] = true
 	c.log.mu.Unlock()
 	return c.inner.Assign(ctx, method)
 }
@@ -157,6 +169,10 @@ func (t *atree) build(log *ctxLog, srv **jrpc2.Server) jrpc2.Assigner {
 				}
 				if jrpc2.ServerFromContext(ctx) != *srv {
 					log.fail("handler-server")
+				}
+				if *srv != nil && !log.wasAssigned(req) {
+					// every request is dispatched through the assigner, given that very request
+					log.fail("handler-request-never-assigned")
 				}
 				return map[string]int{"tag": id}, nil
 			}
@@ -232,6 +248,45 @@ func (s *c17Server) call(name string) string {
 	return obs + s.log.take()
 }
 
+// batch sends one Batch of calls with the given method names and reports the outcome of each, in order.
+func (s *c17Server) batch(names []string) string {
+	specs := make([]jrpc2.Spec, len(names))
+	for i, n := range names {
+		specs[i] = jrpc2.Spec{Method: n}
+	}
+	rsps, err := s.cli.Batch(context.Background(), specs)
+	if err != nil {
+		return "E?batch:" + err.Error()
+	}
+	var out []string
+	for _, rsp := range rsps {
+		obs := ""
+		if e := rsp.Error(); e != nil {
+			if e.Code == jrpc2.MethodNotFound {
+				obs = "N"
+			} else {
+				obs = fmt.Sprintf("E%d", int(e.Code))
+			}
+		} else {
+			var r struct {
+				Tag       *int    `json:"tag"`
+				StartTime *string `json:"startTime"`
+			}
+			if err := rsp.UnmarshalResult(&r); err != nil {
+				obs = "E?unmarshal"
+			} else if r.Tag != nil {
+				obs = fmt.Sprintf("H%d", *r.Tag)
+			} else if r.StartTime != nil {
+				obs = "B"
+			} else {
+				obs = "E?result"
+			}
+		}
+		out = append(out, obs)
+	}
+	return strings.Join(out, ",") + s.log.take()
+}
+
 func showNames(ns []string) string {
 	if len(ns) == 0 {
 		return "empty"
@@ -258,6 +313,20 @@ func (e *c17Exec) exec(fields []string) string {
 			e.cur.key = key
 		}
 		return e.cur.call(unhexf(fields[3]))
+	case "Q":
+		key := fields[1] + "\t" + fields[2]
+		if e.cur == nil || e.cur.key != key {
+			if e.cur != nil {
+				e.cur.stop()
+			}
+			e.cur = c17Start(fields[1] == "1", parseTree(fields[2]))
+			e.cur.key = key
+		}
+		var names []string
+		for _, h := range strings.Split(fields[3], ",") {
+			names = append(names, unhexf(h))
+		}
+		return e.cur.batch(names)
 	case "M":
 		t := parseTree(fields[1])
 		var srv *jrpc2.Server
@@ -302,7 +371,9 @@ var c17Alpha = []string{"r", "p", "c", ".", "R", "a"}
 
 func c17GenTree(r *rng, depth int, nextID *int) *atree {
 	letters := []string{"r", "p", "c", "a", "R"}
-	special := []string{"rpc", "rp", ".", "a.b", "é", "", "x", "rpc.x", "serverInfo", "r.", ".r", "日本"}
+	// keys that extend another key with a byte below, at and above '.' (sorting composed names is not sorting keys)
+	special := []string{"rpc", "rp", ".", "a.b", "é", "", "x", "rpc.x", "serverInfo", "r.", ".r", "日本",
+		"a-", "a-b", "a b", "a!", "a/", "a0", "r-", "r ", "r/", "rpc-x", "p,", "p+q"}
 	genKey := func() string {
 		switch k := r.intn(20); {
 		case k < 12:
@@ -438,7 +509,7 @@ func c17Main(cfg *config) {
 		return
 	}
 	r := newRng(cfg.seed)
-	ntrees := 6
+	ntrees := 10
 	if cfg.tier == "thorough" {
 		ntrees = 40
 	}
@@ -448,6 +519,10 @@ func c17Main(cfg *config) {
 		"s[727063:m[78=1;736572766572496e666f=2;];-:m[78=3;-=4;];]",
 		"s[727063:m[-=5;78=1;];72:m[70632e=6;];]", // ServiceMap{"rpc": Map{"": h, "x": h}}: the name "rpc." reaches a handler unless gated
 		"m[7270632e=1;727063=2;7270632e2e=3;]",    // Map{"rpc.": h, "rpc": h, "rpc..": h}
+		// ServiceMap{"v1": {Get, Put}, "v1-beta": {Get}, "v1/x": {Get}}: a key that is a proper prefix of another
+		"s[7631:m[476574=1;507574=2;];76312d62657461:m[476574=3;];76312f78:m[476574=4;];]",
+		// nested, with keys "a", "a b", "a!" at both levels
+		"s[61:s[61:m[78=1;];6121:m[78=2;];];612062:m[78=3;7a=4;];6121:m[79=5;];]",
 	}
 	var trees []*atree
 	for _, s := range fixed {
@@ -468,6 +543,28 @@ func c17Main(cfg *config) {
 			for _, n := range names {
 				fa := []string{"A", b, ts, hexf(n)}
 				w.line(append(fa, ex.exec(fa))...)
+			}
+			// batches: names of the tree with repetitions, unknown and reserved names in between (each member
+			// is dispatched on its own: through the assigner, given that member's request)
+			paths := append(t.paths(), "nope", "rpc.serverInfo", "rpc.x")
+			for k := 0; k < 6; k++ {
+				n := 2 + r.intn(4)
+				var hs []string
+				var first string
+				for j := 0; j < n; j++ {
+					p := pick(r, paths)
+					if j == 0 {
+						first = p
+					} else if r.chance(1, 3) {
+						p = first
+					}
+					if p == "" {
+						p = "nope"
+					}
+					hs = append(hs, hexf(p))
+				}
+				fq := []string{"Q", b, ts, strings.Join(hs, ",")}
+				w.line(append(fq, ex.exec(fq))...)
 			}
 		}
 	}
